@@ -4,6 +4,7 @@ import LhasaV.Lemmas.CrcBurst
 import LhasaV.Lemmas.MacProps
 import LhasaV.Lemmas.MessagesProps
 import LhasaV.Lemmas.ToolNoFaultT
+import LhasaV.Lemmas.TestBytes
 /-!
 # C07 — a member is reported good only if its bytes match the recorded length and CRC-16
 -/
@@ -135,5 +136,83 @@ theorem exit_status_cases (cmd : Messages.Cmd) (archive : Array UInt8) (o : Extr
       if (Messages.run cmd archive o fs answers).aborted then 255
       else if (Messages.run cmd archive o fs answers).trace.all (·.2) then 0 else 1 :=
   ToolNoFault.exit_status_cases cmd archive o fs answers
+
+/-! ## end to end, on archive bytes
+
+`archiveWith pk es`: the bytes an archiver writes for the entry list `es` (headers by the C05
+encoder, data by the method's packer). `goodLine o pk e`: what `lha t` prints for an intact member
+(progress bar + `name - Tested`; `VERIFY name` in a dry run; nothing at quiet ≥ 2). `badLine`: the
+complete bar followed by `name - CRC error`. `damage es i pat`: the same archive with member `i`'s
+DATA bytes XORed with `pat` (same size, headers and every other member unchanged: `damage_bytes`,
+`damage_eq_xor`). `IsBurst16 pat`: the set bits of `pat` span at most 16 consecutive bit positions in
+CRC bit order. `truncated pre e k`: the archive cut after `k` bytes of the data of its last member `e`. -/
+
+open Header Extract GlobFs Contain ExtractTree ExtractTree.Sample Spec.HeaderEnc Reader ReaderIndep ArchiveOf PrintList MacProps Messages CrcBurst TestBytes in
+/-- **`lha t` on an intact archive**, every option set, any entry order, every packer with a decoder
+round trip: one (header, good) trace entry per selected entry in order, stdout exactly the good
+lines, stderr empty, file system untouched, exit status 0. -/
+theorem test_intact_archive (pk : Packer) (es : List ExtractTree.Entry) (hok : ∀ e ∈ es, EntryOk e)
+    (henc : Encodable es) (hpk : Packs pk es) (o : Opts) (fs : Fs.St) (answers : Bytes) :
+    (Messages.run .test (archiveWith pk es) o fs answers).trace.reverse =
+      (es.filter (selected o.filters)).map (fun e => (hdrOf pk e, true)) ∧
+    (Messages.run .test (archiveWith pk es) o fs answers).stdout =
+      (es.filter (selected o.filters)).flatMap (goodLine o pk) ∧
+    (Messages.run .test (archiveWith pk es) o fs answers).stderr = [] ∧
+    (Messages.run .test (archiveWith pk es) o fs answers).aborted = false ∧
+    (Messages.run .test (archiveWith pk es) o fs answers).fault = false ∧
+    (Messages.run .test (archiveWith pk es) o fs answers).x.fs = fs ∧
+    Messages.exitStatus (Messages.run .test (archiveWith pk es) o fs answers) = 0 :=
+  TestBytes.test_intact_archive pk es hok henc hpk o fs answers
+
+open Header Extract GlobFs Contain ExtractTree ExtractTree.Sample Spec.HeaderEnc Reader ReaderIndep ArchiveOf PrintList MacProps Messages CrcBurst TestBytes in
+/-- **A burst of ≤ 16 bits in a stored member's data is always reported.** `lha t` on the damaged
+archive: that member's verdict is bad (`name - CRC error` after its bar), EVERY OTHER member is still
+reported good, exit status 1 (0 only if the wildcards do not select the damaged member). -/
+theorem test_detects_damage (pre post : List ExtractTree.Entry) (p : Fs.Path) (data : Bytes)
+    (perms : Option Nat) (t : Nat) (pat : Bytes)
+    (hok : ∀ e ∈ pre ++ .file p data perms t :: post, EntryOk e)
+    (henc : Encodable (pre ++ .file p data perms t :: post))
+    (hlen : pat.length = data.length) (hb : IsBurst16 pat)
+    (o : Opts) (hdry : o.dryRun = false) (fs : Fs.St) (answers : Bytes) :
+    (Messages.run .test (damage (pre ++ .file p data perms t :: post) pre.length pat) o fs answers).trace.reverse =
+      (pre.filter (selected o.filters)).map (fun e => (hdrOf stored e, true)) ++
+      ((if selected o.filters (.file p data perms t) then [(hdrOf stored (.file p data perms t), false)] else []) ++
+       (post.filter (selected o.filters)).map (fun e => (hdrOf stored e, true))) ∧
+    (Messages.run .test (damage (pre ++ .file p data perms t :: post) pre.length pat) o fs answers).stdout =
+      (pre.filter (selected o.filters)).flatMap (goodLine o stored) ++
+      ((if selected o.filters (.file p data perms t) then badLine o stored data.length (.file p data perms t) else []) ++
+       (post.filter (selected o.filters)).flatMap (goodLine o stored)) ∧
+    (Messages.run .test (damage (pre ++ .file p data perms t :: post) pre.length pat) o fs answers).stderr = [] ∧
+    (Messages.run .test (damage (pre ++ .file p data perms t :: post) pre.length pat) o fs answers).aborted = false ∧
+    (Messages.run .test (damage (pre ++ .file p data perms t :: post) pre.length pat) o fs answers).fault = false ∧
+    (Messages.run .test (damage (pre ++ .file p data perms t :: post) pre.length pat) o fs answers).x.fs = fs ∧
+    Messages.exitStatus (Messages.run .test (damage (pre ++ .file p data perms t :: post) pre.length pat) o fs answers) =
+      if selected o.filters (.file p data perms t) then 1 else 0 :=
+  TestBytes.test_detects_damage pre post p data perms t pat hok henc hlen hb o hdry fs answers
+
+open Header Extract GlobFs Contain ExtractTree ExtractTree.Sample Spec.HeaderEnc Reader ReaderIndep ArchiveOf PrintList MacProps Messages CrcBurst TestBytes in
+/-- **Any truncation is reported as a failure**: the archive cut anywhere inside the data of a
+stored member (everything after it lost): the members before it good, it bad, exit status 1. -/
+theorem test_detects_truncation (pre : List ExtractTree.Entry) (p : Fs.Path) (data : Bytes)
+    (perms : Option Nat) (t : Nat) (k : Nat)
+    (hok : ∀ e ∈ pre ++ [.file p data perms t], EntryOk e)
+    (henc : Encodable (pre ++ [.file p data perms t]))
+    (hk : k < data.length)
+    (o : Opts) (hdry : o.dryRun = false) (fs : Fs.St) (answers : Bytes) :
+    (Messages.run .test (truncated pre (.file p data perms t) k) o fs answers).trace.reverse =
+      (pre.filter (selected o.filters)).map (fun e => (hdrOf stored e, true)) ++
+      (if selected o.filters (.file p data perms t) then [(hdrOf stored (.file p data perms t), false)] else []) ∧
+    (Messages.run .test (truncated pre (.file p data perms t) k) o fs answers).stdout =
+      (pre.filter (selected o.filters)).flatMap (goodLine o stored) ++
+      (if selected o.filters (.file p data perms t) then
+        badLine o stored (decodedOf stored data (data.take k)).length (.file p data perms t) else []) ∧
+    (decodedOf stored data (data.take k)).length ≤ k ∧
+    (Messages.run .test (truncated pre (.file p data perms t) k) o fs answers).stderr = [] ∧
+    (Messages.run .test (truncated pre (.file p data perms t) k) o fs answers).aborted = false ∧
+    (Messages.run .test (truncated pre (.file p data perms t) k) o fs answers).fault = false ∧
+    (Messages.run .test (truncated pre (.file p data perms t) k) o fs answers).x.fs = fs ∧
+    Messages.exitStatus (Messages.run .test (truncated pre (.file p data perms t) k) o fs answers) =
+      if selected o.filters (.file p data perms t) then 1 else 0 :=
+  TestBytes.test_detects_truncation pre p data perms t k hok henc hk o hdry fs answers
 
 end LhasaV.Props.C07
